@@ -1026,8 +1026,9 @@ class RunMonitor:
         """run the real acquisition function while recording the GP prediction it
         used (same gp, same inputs), then check z = mu - sqrt(beta_t) * sd with an
         independently computed beta_t."""
-        if "C15" not in self.want:
+        if "C15" not in self.want and not ("C18" in self.want and getattr(self, "user_schedule", None) is not None):
             return orig(xi, func_count, gp, sqrt_beta)
+        pref = "C15" if "C15" in self.want else "C18"  # (C18: candidates must be ranked by the CONFIGURED acquisition function)
         seen = []
         real_predict = gp.predict
 
@@ -1051,7 +1052,8 @@ class RunMonitor:
             return out
         if func_count != self.fl.func_count:
             self.v("C15/acq-func-count-not-current", passed=int(func_count), actual=int(self.fl.func_count), site=site)
-        if sqrt_beta is not None:
+        user_sched = getattr(self, "user_schedule", None)
+        if sqrt_beta is not None and not (user_sched is not None and sqrt_beta is user_sched):
             self.c("C15.acq_custom_beta")
             return out
         if len(seen) != 1 or len(seen[0][0]) < 1 or seen[0][0][0] is not xi or len(seen[0][0]) > 1 or seen[0][1]:
@@ -1061,6 +1063,10 @@ class RunMonitor:
         D = xa.shape[1]
         t = self.fl.func_count + 1
         sb = math.sqrt(0.2 * 2 * math.log(D * t**2 * math.pi**2 / (6 * 0.1)))
+        if sqrt_beta is not None:
+            # the USER's schedule (option search_acq_fcn = ('acq_LCB', schedule)): documented signature schedule(t, number of variables)
+            sb = float(user_sched(t, D))
+            self.c("C15.acq_user_schedule_calls")
         with np.errstate(all="ignore"):
             zexp = np.asarray(mu, float).ravel() - sb * np.sqrt(np.asarray(s2, float).ravel())
             zgot = np.asarray(out[0], float).ravel()
@@ -1068,7 +1074,7 @@ class RunMonitor:
             bad = ~(np.isclose(zgot, zexp, rtol=1e-12, atol=0.0) | (np.isnan(zgot) & np.isnan(zexp)) | (zgot == zexp))
         if zgot.shape != zexp.shape or np.any(bad):
             j = int(np.argmax(bad)) if zgot.shape == zexp.shape else 0
-            self.v("C15/acquisition-not-documented-lcb", site=site, got=zgot[j], expected=zexp[j], mu=np.asarray(mu).ravel()[j],
+            self.v(pref + "/acquisition-not-documented-lcb", site=site, got=zgot[j], expected=zexp[j], mu=np.asarray(mu).ravel()[j],
                    sd=float(np.sqrt(np.asarray(s2).ravel()[j])), sqrt_beta=sb, t=t, D=D)
         # loose sanity check that the recorded prediction is the gp's own (subset re-prediction)
         if n and self.rng.random() < 0.1:
@@ -1413,6 +1419,15 @@ class RunMonitor:
         self.fl = None
         user_opts = dict(P.options)
         opts_copy = copy.deepcopy(user_opts)
+        if self.spec.get("acq_schedule"):
+            # a user-supplied exploration schedule for the search acquisition function (a callable cannot travel in the JSON spec)
+            a_, b_ = self.spec["acq_schedule"]
+
+            def user_schedule(t, n_vars, a_=float(a_), b_=float(b_)):
+                return a_ + b_ * n_vars + 0.01 * math.log(t)
+
+            self.user_schedule = user_schedule
+            opts_copy["search_acq_fcn"] = ("acq_LCB", user_schedule)
         ssp = self.spec.get("seed_spelling")
         if ssp and isinstance(opts_copy.get("random_seed"), int):
             # another valid spelling of the same integer seed (what np.arange / rng.integers hand over)
